@@ -43,6 +43,13 @@ THEOREMS = [
      "match lim with Some l => N.min declared l | None => 0 end <= total -> "
      "after_body Q q_method q_content_length true h lim = "
      "if total =? declared then Open [] else if total <? declared then Closed else Unmodelled"),
+    ("checked_history_is_instance",
+     "forall (cfg : c8cfg) (reqs : list (c8req * bytes * nat)), "
+     "c8_hyps cfg (c8_state0 cfg) (with_actions (c8_limit cfg) 1 reqs) = true -> "
+     "exists ss, c8_run true true cfg reqs = (map Some ss, Open []) /\\ "
+     "length ss = length (with_actions (c8_limit cfg) 1 reqs) /\\ "
+     "parse_responses (map (fun h => rq_method (q_req (h_q h))) (with_actions (c8_limit cfg) 1 reqs)) "
+     "(written (map Some ss)) = Some (map observable ss)"),
     ("closed_is_silent",
      CONNQ[:-2] + " (drain head_rule : bool) (hs : list (hreq Q)) (a : A), "
      "conn_run Q A q_method q_content_length q_known_host q_head app error_body package too_many_body drain head_rule a Closed hs "
@@ -379,9 +386,10 @@ def spec_ok(c, i, s):
     """the property on the implementation's bytes: the Coq parser accepts them as exactly one response per request, in
     order (nothing left over), the connection is still usable, and HEAD announces the length GET gets"""
     v, sx = _view(i), xparse(s)
-    if v is None or sx[0] != "L" or len(sx[1]) != 2:
+    if v is None or sx[0] != "L" or len(sx[1]) != 3:
         return False
     n, must_open = sx[1][0][1], sx[1][1][1]
+    c.meta["instance"] = sx[1][2][1]
     if v["confused"] or v["resp"] is None or len(v["resp"]) != n or v["answered"] != n:
         c.meta["why"] = "the strict client does not find exactly one well-formed response per request"
         return False
@@ -424,6 +432,7 @@ def extra_coverage(cases, impl, model, spec):
     nreq = sum(len(c.x[1][1][1]) for c in cases if c.comp.startswith("h1w.conn"))
     unpred = sum(model.get(c.id, "").count("(L (N 7))") for c in cases if c.comp.startswith("h1w.conn"))
     return {"connection_histories": sum(1 for c in cases if c.comp.startswith("h1w.conn")), "requests_sent": nreq,
+            "histories_that_are_instances_of_the_connection_theorem": sum(1 for c in cases if c.meta.get("instance") == 1),
             "responses_framed_but_not_predicted": unpred, "histories_outside_the_connection_model": un}
 
 
